@@ -78,6 +78,25 @@ theorem SO3_exp_log_near_pi (eps : ℝ) (q : Quat ℝ) (hq : q.normSq = 1) (h0 :
       Quat.distSq (SO3ExpLog eps q) (Quat.scale (spm q.w) q) ≤ 2 * eps ^ 2 :=
   ⟨so3Exp_SO3Log_r2 eps q h0 hpi h1 h2, so3Exp_SO3Log_r2_dist eps q hq h0 hpi h1 h2⟩
 
+/-- Regimes 1 and 2 together (every unit quaternion with `‖v‖ > eps`, i.e. every rotation by more than `≈2·eps`):
+`Exp (Log q)` is within `√2·eps` of `q` or of `-q` — the same rotation up to the accuracy of the arithmetic. -/
+theorem SO3_exp_log_any (eps : ℝ) (q : Quat ℝ) (hq : q.normSq = 1) (h0 : 0 ≤ eps) (he1 : eps ≤ 1)
+    (h1 : eps < q.vec.norm) :
+    Quat.distSq (SO3ExpLog eps q) q ≤ 2 * eps ^ 2 ∨ Quat.distSq (SO3ExpLog eps q) (SO3negQ q) ≤ 2 * eps ^ 2 := by
+  have hz : ∀ p : Quat ℝ, Quat.distSq p p = 0 := by intro p; unfold Quat.distSq; ring
+  have hnn : (0 : ℝ) ≤ 2 * eps ^ 2 := by positivity
+  by_cases h2 : eps < |q.w|
+  · rcases lt_or_gt_of_ne (abs_pos.mp (lt_of_le_of_lt h0 h2)) with hw | hw
+    · right
+      rw [SO3_exp_log_neg eps q hq h0 he1 h1 (by rw [abs_of_neg hw] at h2; linarith), hz]; exact hnn
+    · left
+      rw [SO3_exp_log_pos eps q hq h0 he1 h1 (by rw [abs_of_pos hw] at h2; exact h2), hz]; exact hnn
+  · have h := (SO3_exp_log_near_pi eps q hq h0 (by linarith [Real.pi_gt_three]) h1 h2).2
+    rw [spm_real] at h
+    by_cases hw : q.w < 0
+    · right; simp only [hw, if_true] at h; rw [Quat.scale_neg_one] at h; exact h
+    · left; simp only [hw, if_false] at h; rw [Quat.scale_one] at h; exact h
+
 /-! ## SO3 : `‖Log q‖ ≤ π` -/
 
 /-- regime 1: strictly below `π`, and equal to `2·atan(‖v‖/|w|)` -/
@@ -99,6 +118,44 @@ theorem SO3_log_norm_le_pi (eps : ℝ) (q : Quat ℝ) (hq : q.normSq = 1) (h0 : 
     · exact le_of_lt (SO3_log_norm_lt_pi eps q h0 h1 h2).2
     · exact le_of_eq (SO3Log_r2_norm eps q h0 h1 h2)
   · exact le_trans (SO3Log_r3_norm_le eps q hq he h1) Real.two_le_pi
+
+/-! ## SO3 : regime 3 against the exact principal logarithm -/
+
+/-- Regime 3 (`‖v‖ ≤ eps`, `v ≠ 0`): the series value differs from the exact principal logarithm
+`(2·atan(‖v‖/w)/‖v‖)·v` (the regime-1 formula, which `Exp` inverts exactly) by at most `2‖v‖⁵/(5|w|⁵)` in norm —
+for a unit quaternion and `eps = 2⁻⁵²` that is `< 10⁻⁷⁸`; for `v = 0` both are `0`. -/
+theorem SO3_log_series (eps : ℝ) (q : Quat ℝ) (h1 : ¬ eps < q.vec.norm) (hv : 0 < q.vec.norm) (hw : q.w ≠ 0) :
+    ((SO3Log eps q).sub (q.vec.smul (2 * Real.arctan (q.vec.norm / q.w) / q.vec.norm))).norm
+      ≤ 2 * q.vec.norm ^ 5 / (5 * |q.w| ^ 5) := by
+  unfold SO3Log
+  rw [Vec3.smul_sub_smul, Vec3.norm_smul]
+  have h := so3LogFactor_r3_error eps q.vec.norm q.w h1 hv hw
+  have hwa : 0 < |q.w| := abs_pos.mpr hw
+  calc |so3LogFactor eps q.vec.norm q.w - 2 * Real.arctan (q.vec.norm / q.w) / q.vec.norm| * q.vec.norm
+      ≤ 2 * q.vec.norm ^ 4 / (5 * |q.w| ^ 5) * q.vec.norm := by gcongr
+    _ = 2 * q.vec.norm ^ 5 / (5 * |q.w| ^ 5) := by field_simp
+
+/-- PARTIAL (clause "Exp(Log X) is X" in regime 3): what is proved for `‖v‖ ≤ eps` is that `Log q` is within
+`2‖v‖⁵/(5|w|⁵)` of the exact principal logarithm and has norm `≤ 2`; the composition with the two branches of `so3Exp`
+(Taylor for `‖Log q‖ ≤ eps`, closed form above) is not carried through — its `O(eps³)` defect is measured by the
+correspondence stream `explog`. -/
+theorem SO3_exp_log_regime3_partial (eps : ℝ) (q : Quat ℝ) (hq : q.normSq = 1) (he : eps ≤ 1 / 2)
+    (h1 : ¬ eps < q.vec.norm) (hv : 0 < q.vec.norm) :
+    ((SO3Log eps q).sub (q.vec.smul (2 * Real.arctan (q.vec.norm / q.w) / q.vec.norm))).norm
+      ≤ 2 * q.vec.norm ^ 5 / (5 * |q.w| ^ 5) ∧ (SO3Log eps q).norm ≤ 2 := by
+  have hw : q.w ≠ 0 := by
+    intro h
+    have hu := unit_parts q hq
+    rw [h] at hu
+    have : q.vec.norm ≤ 1 / 2 := by linarith [not_lt.mp h1]
+    nlinarith [Vec3.norm_nonneg q.vec]
+  exact ⟨SO3_log_series eps q h1 hv hw, SO3Log_r3_norm_le eps q hq he h1⟩
+
+/-- `v = 0` (`q = ±1`): `Log q = 0` exactly -/
+theorem SO3_log_zero (eps : ℝ) (q : Quat ℝ) (hv : q.vec.norm = 0) : SO3Log eps q = Vec3.zero := by
+  unfold SO3Log
+  rw [Vec3.norm_eq_zero hv]
+  ext <;> lie_unfold <;> ring
 
 /-! ## SO3 : `Log (-q) = Log q`, `Log (q⁻¹) = -Log q` -/
 
@@ -141,6 +198,84 @@ theorem so3_log_exp_near_pi (eps : ℝ) (x : Vec3 ℝ) (h0 : 0 ≤ eps) (h : eps
     so3LogExp eps x = x.smul (Real.pi / x.norm) ∧ Real.pi - x.norm ≤ Real.pi * eps :=
   ⟨SO3Log_so3Exp_r2 eps x h0 h hpi hs hc,
    pi_sub_le_of_cos_le eps x.norm (Vec3.norm_nonneg x) hpi (not_lt.mp hc)⟩
+
+/-- Taylor branch of `Exp` (`θ ≤ eps`) followed by regime 3 of `Log`: `Log (Exp x) = (1+δ)·x` with `|δ| ≤ θ⁴/50` -/
+theorem so3_log_exp_small (eps : ℝ) (x : Vec3 ℝ) (h0 : 0 ≤ eps) (he1 : eps ≤ 1) (h : ¬ eps < x.norm) :
+    ∃ δ : ℝ, so3LogExp eps x = x.smul (1 + δ) ∧ |δ| ≤ x.normSq ^ 2 / 50 := by
+  have hθ0 := Vec3.norm_nonneg x
+  have hθ : x.norm ≤ eps := not_lt.mp h
+  have hn : x.norm * x.norm = x.normSq := Vec3.norm_sq x
+  have hn0 : 0 ≤ x.normSq := Vec3.normSq_nonneg x
+  have hn1 : x.normSq ≤ 1 := by rw [← hn]; nlinarith
+  have hE := so3Exp_taylor eps x h
+  generalize hc : 1 / 2 - 1 / 48 * x.normSq + 1 / 3840 * (x.normSq * x.normSq) = c at hE
+  generalize hw : 1 - 1 / 8 * x.normSq + 1 / 384 * (x.normSq * x.normSq) = w at hE
+  have hc0 : 0 < c := by rw [← hc]; nlinarith
+  have hc1 : c ≤ 1 / 2 + 1 / 3840 := by rw [← hc]; nlinarith
+  have hw0 : 7 / 8 ≤ w := by rw [← hw]; nlinarith
+  have hw1 : w ≤ 1 + 1 / 384 := by rw [← hw]; nlinarith
+  have hvn : (so3Exp eps x).vec.norm = c * x.norm := by
+    rw [hE, Quat.mk'_vec, Vec3.norm_smul, abs_of_pos hc0]
+  have hr3 : ¬ eps < (so3Exp eps x).vec.norm := by rw [hvn]; nlinarith
+  refine ⟨c * (2 * (1 / w - c * x.norm * (c * x.norm) / (3 * (w * w * w)))) - 1, ?_, ?_⟩
+  · unfold so3LogExp
+    rw [SO3Log_r3 eps _ hr3, hvn, hE, Quat.mk'_vec, Quat.mk'_w, Vec3.smul_smul]
+    congr 1; ring
+  · have hw3 : 0 < 3 * (w * w * w) := by positivity
+    have key : c * (2 * (1 / w - c * x.norm * (c * x.norm) / (3 * (w * w * w)))) - 1
+        = (6 * c * (w * w) - 2 * x.normSq * (c * c * c) - 3 * (w * w * w)) / (3 * (w * w * w)) := by
+      rw [← hn]; field_simp; ring
+    have hN : 6 * c * (w * w) - 2 * x.normSq * (c * c * c) - 3 * (w * w * w)
+        = -(x.normSq ^ 2 * ((x.normSq ^ 5 + 960 * x.normSq ^ 4 - 138240 * x.normSq ^ 3 + 6860800 * x.normSq ^ 2
+            - 143769600 * x.normSq + 1061683200) / 28311552000)) := by
+      rw [← hc, ← hw]; ring
+    rw [key, hN]
+    generalize x.normSq = n at hn0 hn1 ⊢
+    have p5 : n ^ 5 ≤ n := pow_le_of_le_one hn0 hn1 (by norm_num)
+    have p4 : n ^ 4 ≤ n := pow_le_of_le_one hn0 hn1 (by norm_num)
+    have p3 : n ^ 3 ≤ n := pow_le_of_le_one hn0 hn1 (by norm_num)
+    have p2 : n ^ 2 ≤ n := pow_le_of_le_one hn0 hn1 (by norm_num)
+    have q5 : 0 ≤ n ^ 5 := by positivity
+    have q4 : 0 ≤ n ^ 4 := by positivity
+    have q3 : 0 ≤ n ^ 3 := by positivity
+    have q2 : 0 ≤ n ^ 2 := by positivity
+    obtain ⟨Q, hQ⟩ : ∃ Q, Q = (n ^ 5 + 960 * n ^ 4 - 138240 * n ^ 3 + 6860800 * n ^ 2 - 143769600 * n + 1061683200) / 28311552000 :=
+      ⟨_, rfl⟩
+    have hQ0 : 0 ≤ Q := by rw [hQ]; apply div_nonneg _ (by norm_num); linarith only [q5, q4, q2, p3, hn1, hn0]
+    have hQ1 : Q ≤ 3 / 80 := by rw [hQ, div_le_iff₀ (by norm_num)]; linarith only [p5, p4, p2, q3, hn0]
+    rw [← hQ]
+    have hww : (49 : ℝ) / 64 ≤ w * w := by nlinarith only [hw0]
+    have hwww : (343 : ℝ) / 512 ≤ w * w * w := by
+      have := mul_le_mul hww hw0 (by norm_num) (by positivity)
+      linarith only [this]
+    have hw3' : (2 : ℝ) ≤ 3 * (w * w * w) := by linarith only [hwww]
+    rw [abs_div, abs_neg, abs_of_nonneg (by positivity), abs_of_pos hw3, div_le_iff₀ hw3]
+    have h1 : n ^ 2 * Q ≤ n ^ 2 * (3 / 80) := mul_le_mul_of_nonneg_left hQ1 q2
+    have h2 : n ^ 2 / 50 * 2 ≤ n ^ 2 / 50 * (3 * (w * w * w)) := mul_le_mul_of_nonneg_left hw3' (by positivity)
+    linarith only [h1, h2, q2]
+
+/-- the thin band `eps < θ` with `sin(θ/2) ≤ eps` (closed-form `Exp`, then regime 3 of `Log`): `Log (Exp x)` misses `x`
+by at most `2·tan⁵(θ/2)/5 ≈ θ⁵/80` in norm -/
+theorem so3_log_exp_gap (eps : ℝ) (x : Vec3 ℝ) (h0 : 0 ≤ eps) (h : eps < x.norm) (hpi : x.norm < Real.pi)
+    (hs : ¬ eps < Real.sin (x.norm / 2)) :
+    ((so3LogExp eps x).sub x).norm ≤ 2 * Real.sin (x.norm / 2) ^ 5 / (5 * |Real.cos (x.norm / 2)| ^ 5) := by
+  have hpos : 0 < x.norm := lt_of_le_of_lt h0 h
+  have hvn := so3Exp_closed_vec_norm eps x h0 h (by linarith [Real.pi_pos])
+  have hw : (so3Exp eps x).w = Real.cos (x.norm / 2) := by rw [so3Exp_closed eps x h]; rfl
+  have hspos : 0 < Real.sin (x.norm / 2) := Real.sin_pos_of_pos_of_lt_pi (by linarith) (by linarith)
+  have hcpos : 0 < Real.cos (x.norm / 2) :=
+    Real.cos_pos_of_mem_Ioo ⟨by linarith [Real.pi_pos], by linarith⟩
+  have key := SO3_log_series eps (so3Exp eps x) (by rw [hvn]; exact hs) (by rw [hvn]; exact hspos)
+    (by rw [hw]; exact ne_of_gt hcpos)
+  rw [hvn, hw] at key
+  have e : (so3Exp eps x).vec.smul (2 * Real.arctan (Real.sin (x.norm / 2) / Real.cos (x.norm / 2)) /
+      Real.sin (x.norm / 2)) = x := by
+    rw [← Real.tan_eq_sin_div_cos, Real.arctan_tan (by linarith) (by linarith), so3Exp_closed eps x h,
+      Quat.mk'_vec, Vec3.smul_smul]
+    have : Real.sin (x.norm / 2) / x.norm * (2 * (x.norm / 2) / Real.sin (x.norm / 2)) = 1 := by field_simp
+    rw [this, Vec3.smul_one]
+  rw [e] at key
+  exact key
 
 /-! ## `so3_Jl_inv · so3_Jl = 1` -/
 
@@ -195,6 +330,18 @@ theorem SE3_exp_log_act (eps : ℝ) (X : SE3 ℝ) (hq : X.q.normSq = 1) (h0 : 0 
   · rw [SE3_exp_log_neg eps X hq h0 he1 h1 (by rw [abs_of_neg hw] at h2; linarith), SE3_negQ_act]
   · rw [SE3_exp_log_pos eps X hq h0 he1 h1 (by rw [abs_of_pos hw] at h2; exact h2)]
 
+/-- Regime 2 (`|w| ≤ eps`): the translation is still recovered exactly (`Jl(φ)·Jl⁻¹(φ) = 1` at `‖φ‖ = π`); the
+rotation part is the regime-2 value of `SO3_exp_log_near_pi` (within `√2·eps` of `±q`). -/
+theorem SE3_exp_log_near_pi (eps : ℝ) (X : SE3 ℝ) (h0 : 0 ≤ eps) (hpi : eps < Real.pi)
+    (h1 : eps < X.q.vec.norm) (h2 : ¬ eps < |X.q.w|) :
+    SE3ExpLog eps X = ⟨X.t, Quat.mk' (X.q.vec.smul (spm X.q.w / X.q.vec.norm)) 0⟩ := by
+  have hn := SO3Log_r2_norm eps X.q h0 h1 h2
+  have hS : Real.sin ((SO3Log eps X.q).norm / 2) ≠ 0 := by rw [hn, Real.sin_pi_div_two]; norm_num
+  unfold SE3ExpLog se3Exp SE3Log
+  simp only []
+  rw [← Mat3.mul_mulVec, so3Jl_mul_so3JlInv eps _ h0 (by rw [hn]; exact hpi) hS, Mat3.one_mulVec,
+    so3Exp_SO3Log_r2 eps X.q h0 hpi h1 h2]
+
 /-- `Log (Exp ξ) = ξ` for rotation angle below `π` (regime 1 after `Exp`), any translation part -/
 theorem SE3_log_exp (eps : ℝ) (x : se3 ℝ) (h0 : 0 ≤ eps) (h : eps < x.phi.norm) (hpi : x.phi.norm < Real.pi)
     (hs : eps < Real.sin (x.phi.norm / 2)) (hc : eps < Real.cos (x.phi.norm / 2)) : se3LogExp eps x = x := by
@@ -217,8 +364,11 @@ theorem SE3_log_neg (eps : ℝ) (X : SE3 ℝ) (h : X.q.w ≠ 0 ∨ ¬ eps < X.q.
   simp only []
   rw [SO3Log_neg' eps X.q h]
 
-/-- `Log (Inv X) = -Log X` on SE3 (unit quaternion, regime 1): uses `Jl⁻¹(−φ)·R(φ)ᵀ = Jl⁻¹(φ)` -/
-theorem SE3_log_inv (eps : ℝ) (X : SE3 ℝ) (hq : X.q.normSq = 1) (h0 : 0 ≤ eps) (he1 : eps ≤ 1)
+/-- `Log (Inv X) = -Log X` on SE3 for a unit quaternion in regime 1 (`‖v‖ > eps`, `|w| > eps`): uses
+`Jl⁻¹(−φ)·R(φ)ᵀ = Jl⁻¹(φ)`.  PARTIAL w.r.t. the clause: in regime 2 (`|w| ≤ eps`) and regime 3 (`‖v‖ ≤ eps`) the rotation part
+is still exactly negated (`SO3_log_inv`), the translation part agrees only to `O(eps)·‖t‖` — measured by the
+correspondence stream `loginv`, not proved. -/
+theorem SE3_log_inv_partial (eps : ℝ) (X : SE3 ℝ) (hq : X.q.normSq = 1) (h0 : 0 ≤ eps) (he1 : eps ≤ 1)
     (h1 : eps < X.q.vec.norm) (h2 : eps < |X.q.w|) : SE3LogInv eps X = se3.neg (SE3Log eps X) := by
   obtain ⟨ha, _, hc, _⟩ := SO3Log_r1_angle eps X.q hq h0 he1 h1 h2
   have hvn : 0 < X.q.vec.norm := lt_of_le_of_lt h0 h1
@@ -315,6 +465,22 @@ theorem Sim3_exp_log (eps : ℝ) (X : Sim3 ℝ) (hq : X.q.normSq = 1) (hs : 0 < 
   simp only [exp_real, log_real]
   rw [e, Real.exp_log hs]
 
+/-- Regime 2 (`|w| ≤ eps`): translation and scale are recovered exactly, the rotation part is the regime-2 value -/
+theorem Sim3_exp_log_near_pi (eps : ℝ) (X : Sim3 ℝ) (hs : 0 < X.s) (h0 : 0 ≤ eps) (hpi : eps < Real.pi)
+    (h1 : eps < X.q.vec.norm) (h2 : ¬ eps < |X.q.w|) :
+    Sim3ExpLog eps X = ⟨X.t, Quat.mk' (X.q.vec.smul (spm X.q.w / X.q.vec.norm)) 0, X.s⟩ := by
+  have hn := SO3Log_r2_norm eps X.q h0 h1 h2
+  have hdet : (rxso3Ws eps (RxSO3Log eps ⟨X.q, X.s⟩)).det ≠ 0 := by
+    apply rxso3Ws_det_ne_zero eps _ h0
+    show (SO3Log eps X.q).norm < 2 * Real.pi
+    rw [hn]; linarith [Real.pi_pos]
+  unfold Sim3ExpLog sim3Exp Sim3Log
+  simp only []
+  rw [Mat3.mulVec_inv_mulVec _ hdet]
+  unfold rxso3Exp RxSO3Log
+  simp only [exp_real, log_real]
+  rw [so3Exp_SO3Log_r2 eps X.q h0 hpi h1 h2, Real.exp_log hs]
+
 theorem Sim3_exp_log_act (eps : ℝ) (X : Sim3 ℝ) (hq : X.q.normSq = 1) (hs : 0 < X.s) (h0 : 0 ≤ eps)
     (he1 : eps ≤ 1) (h1 : eps < X.q.vec.norm) (h2 : eps < |X.q.w|) (p : Vec3 ℝ) :
     Sim3Act (Sim3ExpLog eps X) p = Sim3Act X p := by
@@ -346,28 +512,120 @@ theorem Sim3_log_neg (eps : ℝ) (X : Sim3 ℝ) (h : X.q.w ≠ 0 ∨ ¬ eps < X.
   simp only []
   rw [SO3Log_neg' eps X.q h]
 
+/-- `Log (Inv X) = -Log X` on Sim3, closed-form regime of the coupling matrix (`|log s| > eps`; the rotation angle is
+above `eps` by regime 1): uses `W(−φ,−σ) = e^{−σ}·R(φ)ᵀ·W(φ,σ)` and the invertibility of `W`.  PARTIAL w.r.t. the clause:
+for `0 < |log s| ≤ eps` (series regime of `W`: the code uses `C = 1` while the scale is `e^σ ≠ 1`) and in regimes 2/3 of
+the quaternion logarithm the identity holds to `O(eps)·‖t‖` only — measured by correspondence (`loginv`), not proved;
+`s = 1` exactly is `Sim3_log_inv_unit_scale`. -/
+theorem Sim3_log_inv_partial (eps : ℝ) (X : Sim3 ℝ) (hq : X.q.normSq = 1) (hs : 0 < X.s) (h0 : 0 ≤ eps) (he1 : eps ≤ 1)
+    (h1 : eps < X.q.vec.norm) (h2 : eps < |X.q.w|) (h3 : eps < |Real.log X.s|) :
+    Sim3LogInv eps X = sim3.neg (Sim3Log eps X) := by
+  obtain ⟨ha, hb, _, _⟩ := SO3Log_r1_angle eps X.q hq h0 he1 h1 h2
+  have hact : X.q.conj.act X.t = (so3Exp eps (SO3Log eps X.q)).conj.act X.t := by
+    rcases lt_or_gt_of_ne (abs_pos.mp (lt_of_le_of_lt h0 h2)) with hw | hw
+    · have e := SO3_exp_log_neg eps X.q hq h0 he1 h1 (by rw [abs_of_neg hw] at h2; linarith)
+      unfold SO3ExpLog SO3negQ at e
+      rw [e, Quat.conj_neg_act]
+    · have e := SO3_exp_log_pos eps X.q hq h0 he1 h1 (by rw [abs_of_pos hw] at h2; exact h2)
+      unfold SO3ExpLog at e
+      rw [e]
+  have hdet : (rxso3Ws eps ⟨SO3Log eps X.q, Real.log X.s⟩).det ≠ 0 :=
+    rxso3Ws_det_ne_zero eps _ h0 (by show (SO3Log eps X.q).norm < 2 * Real.pi; linarith [Real.pi_pos])
+  have hdet' : (rxso3Ws eps ⟨(SO3Log eps X.q).neg, -Real.log X.s⟩).det ≠ 0 :=
+    rxso3Ws_det_ne_zero eps _ h0 (by
+      show (SO3Log eps X.q).neg.norm < 2 * Real.pi
+      rw [Vec3.norm_neg]; linarith [Real.pi_pos])
+  have hW := rxso3Ws_neg_r4 eps (SO3Log eps X.q) (Real.log X.s) h0 ha h3
+  have key : ((X.q.conj.act X.t).smul (1 / X.s)).neg =
+      (rxso3Ws eps ⟨(SO3Log eps X.q).neg, -Real.log X.s⟩).mulVec
+        ((rxso3Ws eps ⟨SO3Log eps X.q, Real.log X.s⟩).inv.mulVec X.t).neg := by
+    rw [Mat3.mulVec_neg, hW, Mat3.smul_mulVec, Mat3.mul_mulVec, Mat3.mulVec_inv_mulVec _ hdet, Real.exp_log hs,
+      hact, so3Exp_conj_act eps _ ha]
+  unfold Sim3LogInv Sim3Inv Sim3Log RxSO3Log sim3.neg
+  simp only [log_real, k_real, Nat.cast_one]
+  rw [SO3Log_conj, one_div, Real.log_inv, ← one_div, key, Mat3.inv_mulVec_mulVec _ hdet']
+
+/-- `Log (Inv X) = -Log X` on Sim3 with scale exactly `1` (`σ = 0`: regime 2 of the coupling matrix) -/
+theorem Sim3_log_inv_unit_scale (eps : ℝ) (X : Sim3 ℝ) (hq : X.q.normSq = 1) (hs1 : X.s = 1) (h0 : 0 ≤ eps)
+    (he1 : eps ≤ 1) (h1 : eps < X.q.vec.norm) (h2 : eps < |X.q.w|) :
+    Sim3LogInv eps X = sim3.neg (Sim3Log eps X) := by
+  obtain ⟨ha, hb, _, _⟩ := SO3Log_r1_angle eps X.q hq h0 he1 h1 h2
+  have hact : X.q.conj.act X.t = (so3Exp eps (SO3Log eps X.q)).conj.act X.t := by
+    rcases lt_or_gt_of_ne (abs_pos.mp (lt_of_le_of_lt h0 h2)) with hw | hw
+    · have e := SO3_exp_log_neg eps X.q hq h0 he1 h1 (by rw [abs_of_neg hw] at h2; linarith)
+      unfold SO3ExpLog SO3negQ at e
+      rw [e, Quat.conj_neg_act]
+    · have e := SO3_exp_log_pos eps X.q hq h0 he1 h1 (by rw [abs_of_pos hw] at h2; exact h2)
+      unfold SO3ExpLog at e
+      rw [e]
+  have hdet : (rxso3Ws eps ⟨SO3Log eps X.q, 0⟩).det ≠ 0 :=
+    rxso3Ws_det_ne_zero eps _ h0 (by show (SO3Log eps X.q).norm < 2 * Real.pi; linarith [Real.pi_pos])
+  have hdet' : (rxso3Ws eps ⟨(SO3Log eps X.q).neg, 0⟩).det ≠ 0 :=
+    rxso3Ws_det_ne_zero eps _ h0 (by
+      show (SO3Log eps X.q).neg.norm < 2 * Real.pi
+      rw [Vec3.norm_neg]; linarith [Real.pi_pos])
+  have hW := rxso3Ws_neg_r2 eps (SO3Log eps X.q) h0 ha
+  have key : ((X.q.conj.act X.t).smul 1).neg =
+      (rxso3Ws eps ⟨(SO3Log eps X.q).neg, 0⟩).mulVec ((rxso3Ws eps ⟨SO3Log eps X.q, 0⟩).inv.mulVec X.t).neg := by
+    rw [Mat3.mulVec_neg, hW, Mat3.mul_mulVec, Mat3.mulVec_inv_mulVec _ hdet, hact, so3Exp_conj_act eps _ ha,
+      Vec3.smul_one]
+  unfold Sim3LogInv Sim3Inv Sim3Log RxSO3Log sim3.neg
+  simp only [log_real, k_real, Nat.cast_one]
+  rw [SO3Log_conj, hs1, div_one, Real.log_one, neg_zero, key, Mat3.inv_mulVec_mulVec _ hdet']
+
+/-! ## zero rotation, rotation-norm corollaries for the bigger groups -/
+
+/-- `x = 0` (Taylor branch of `Exp`, regime 3 of `Log`): exact -/
+theorem so3_log_exp_zero (eps : ℝ) (h0 : 0 ≤ eps) : so3LogExp eps (Vec3.zero : Vec3 ℝ) = Vec3.zero := by
+  unfold so3LogExp; rw [so3Exp_zero eps h0, SO3Log_one]
+
+/-- pure translations round-trip exactly -/
+theorem SE3_log_exp_zero_rot (eps : ℝ) (h0 : 0 ≤ eps) (tau : Vec3 ℝ) :
+    se3LogExp eps ⟨tau, Vec3.zero⟩ = ⟨tau, Vec3.zero⟩ := by
+  have hz : ¬ eps < (Vec3.zero : Vec3 ℝ).norm := by rw [Vec3.zero_norm]; exact not_lt.mpr h0
+  unfold se3LogExp SE3Log se3Exp
+  simp only []
+  rw [so3Exp_zero eps h0, SO3Log_one, so3Jl_taylor eps _ hz, so3JlInv_taylor eps _ hz, polyK_zero, polyK_zero,
+    Mat3.smul_one_mulVec, Mat3.smul_one_mulVec, Vec3.smul_one, Vec3.smul_one]
+
+/-- pure translation + scaling (no rotation) round-trips exactly, for every `σ` (regimes 1 and 3 of `rxso3_Ws`) -/
+theorem Sim3_log_exp_zero_rot (eps : ℝ) (h0 : 0 ≤ eps) (tau : Vec3 ℝ) (sg : ℝ) :
+    sim3LogExp eps ⟨tau, Vec3.zero, sg⟩ = ⟨tau, Vec3.zero, sg⟩ := by
+  have hdet : (rxso3Ws eps ⟨Vec3.zero, sg⟩).det ≠ 0 :=
+    rxso3Ws_det_ne_zero eps _ h0 (by show (Vec3.zero : Vec3 ℝ).norm < 2 * Real.pi; rw [Vec3.zero_norm]; linarith [Real.pi_pos])
+  unfold sim3LogExp Sim3Log sim3Exp rxso3Exp RxSO3Log
+  simp only [exp_real, log_real]
+  rw [so3Exp_zero eps h0, SO3Log_one, Real.log_exp, Mat3.inv_mulVec_mulVec _ hdet]
+
+theorem rxso3_log_exp_zero_rot (eps : ℝ) (h0 : 0 ≤ eps) (sg : ℝ) :
+    rxso3LogExp eps ⟨Vec3.zero, sg⟩ = ⟨Vec3.zero, sg⟩ := by
+  unfold rxso3LogExp RxSO3Log rxso3Exp
+  simp only [exp_real, log_real]
+  rw [so3Exp_zero eps h0, SO3Log_one, Real.log_exp]
+
+/-- the rotation part of `Log X` has norm at most `π` on SE3, RxSO3, Sim3 as well (it is `SO3Log` of the quaternion) -/
+theorem SE3_log_rot_norm_le_pi (eps : ℝ) (X : SE3 ℝ) (hq : X.q.normSq = 1) (h0 : 0 ≤ eps) (he : eps ≤ 1 / 2) :
+    (SE3Log eps X).phi.norm ≤ Real.pi := SO3_log_norm_le_pi eps X.q hq h0 he
+theorem RxSO3_log_rot_norm_le_pi (eps : ℝ) (X : RxSO3 ℝ) (hq : X.q.normSq = 1) (h0 : 0 ≤ eps) (he : eps ≤ 1 / 2) :
+    (RxSO3Log eps X).phi.norm ≤ Real.pi := SO3_log_norm_le_pi eps X.q hq h0 he
+theorem Sim3_log_rot_norm_le_pi (eps : ℝ) (X : Sim3 ℝ) (hq : X.q.normSq = 1) (h0 : 0 ≤ eps) (he : eps ≤ 1 / 2) :
+    (Sim3Log eps X).phi.norm ≤ Real.pi := SO3_log_norm_le_pi eps X.q hq h0 he
+
+/-- RxSO3, regime 2: scale recovered exactly, rotation part the regime-2 value -/
+theorem RxSO3_exp_log_near_pi (eps : ℝ) (X : RxSO3 ℝ) (hs : 0 < X.s) (h0 : 0 ≤ eps) (hpi : eps < Real.pi)
+    (h1 : eps < X.q.vec.norm) (h2 : ¬ eps < |X.q.w|) :
+    RxSO3ExpLog eps X = ⟨Quat.mk' (X.q.vec.smul (spm X.q.w / X.q.vec.norm)) 0, X.s⟩ := by
+  unfold RxSO3ExpLog rxso3Exp RxSO3Log
+  simp only [exp_real, log_real]
+  rw [so3Exp_SO3Log_r2 eps X.q h0 hpi h1 h2, Real.exp_log hs]
+
 /-! ## non-vacuity: the hypotheses are satisfiable by non-trivial values (and the conclusions instantiate) -/
 section NonVacuity
+open C02Ex
 
-private noncomputable def qU : Quat ℝ := ⟨3 / 5, 0, 0, 4 / 5⟩        -- upper hemisphere, angle 2·atan(3/4)
-private noncomputable def qL : Quat ℝ := ⟨3 / 5, 0, 0, -(4 / 5)⟩     -- lower hemisphere (angle beyond π as stored)
-private noncomputable def qPi : Quat ℝ := ⟨1, 0, 0, 0⟩               -- rotation angle exactly π
 
 example : qU.normSq = 1 ∧ qL.normSq = 1 ∧ qPi.normSq = 1 := by
   refine ⟨?_, ?_, ?_⟩ <;> simp only [qU, qL, qPi, Quat.normSq] <;> norm_num
-private theorem qU_unit : qU.normSq = 1 := by simp only [qU, Quat.normSq]; norm_num
-private theorem qL_unit : qL.normSq = 1 := by simp only [qL, Quat.normSq]; norm_num
-private theorem qPi_unit : qPi.normSq = 1 := by simp only [qPi, Quat.normSq]; norm_num
-private theorem qU_v : (1 / 1000 : ℝ) < qU.vec.norm :=
-  Vec3.lt_norm_of_sq_lt (by norm_num) (by simp only [qU, Quat.vec, Vec3.normSq]; norm_num)
-private theorem qL_v : (1 / 1000 : ℝ) < qL.vec.norm :=
-  Vec3.lt_norm_of_sq_lt (by norm_num) (by simp only [qL, Quat.vec, Vec3.normSq]; norm_num)
-private theorem qPi_v : (1 / 1000 : ℝ) < qPi.vec.norm :=
-  Vec3.lt_norm_of_sq_lt (by norm_num) (by simp only [qPi, Quat.vec, Vec3.normSq]; norm_num)
-private theorem qU_w : (1 / 1000 : ℝ) < |qU.w| := by simp only [qU]; rw [abs_of_pos (by norm_num)]; norm_num
-private theorem qL_w : (1 / 1000 : ℝ) < |qL.w| := by
-  simp only [qL]; rw [abs_neg, abs_of_pos (by norm_num)]; norm_num
-private theorem qPi_w : ¬ (1 / 1000 : ℝ) < |qPi.w| := by simp only [qPi, abs_zero]; norm_num
 
 /-- `SO3_exp_log_pos`, `SO3_exp_log_neg` at `eps = 10⁻³`: the round trip of `(3/5,0,0,±4/5)` -/
 example : SO3ExpLog (1 / 1000) qU = qU :=
@@ -388,10 +646,6 @@ example : SO3LogNeg (1 / 1000) qL = SO3Log (1 / 1000) qL :=
   SO3_log_neg _ _ (Or.inl (by simp only [qL]; norm_num))
 example : SO3LogNeg (1 / 1000) qPi = (SO3Log (1 / 1000) qPi).neg := SO3_log_neg_at_pi _ _ (by norm_num) qPi_v rfl
 
-private noncomputable def x1 : Vec3 ℝ := ⟨1, 0, 0⟩
-private theorem x1_norm : x1.norm = 1 := Vec3.norm_axis 1 (by norm_num)
-private theorem x1_lo : Real.pi * (1 / 1000) < x1.norm := by rw [x1_norm]; linarith [Real.pi_lt_four]
-private theorem x1_hi : x1.norm < Real.pi * (1 - 1 / 1000) := by rw [x1_norm]; linarith [Real.pi_gt_three]
 
 /-- `Log (Exp x) = x` at `x = (1,0,0)` (1 rad), `eps = 10⁻³` -/
 example : so3LogExp (1 / 1000) x1 = x1 := so3_log_exp_band _ _ (by norm_num) x1_lo x1_hi
@@ -400,6 +654,26 @@ example : (so3JlInv (1 / 1000) x1).mul (so3Jl (1 / 1000) x1) = Mat3.one :=
 /-- the Taylor branch is inhabited by non-zero vectors -/
 example : ¬ (1 / 1000 : ℝ) < (⟨1 / 2000, 0, 0⟩ : Vec3 ℝ).norm := by
   rw [Vec3.norm_axis _ (by norm_num)]; norm_num
+example : ∃ δ : ℝ, so3LogExp (1 / 1000) ⟨1 / 2000, 0, 0⟩ = (⟨1 / 2000, 0, 0⟩ : Vec3 ℝ).smul (1 + δ) ∧
+    |δ| ≤ (⟨1 / 2000, 0, 0⟩ : Vec3 ℝ).normSq ^ 2 / 50 :=
+  so3_log_exp_small _ _ (by norm_num) (by norm_num) (by rw [Vec3.norm_axis _ (by norm_num)]; norm_num)
+/-- the gap band: `θ = 3/2000`, `eps = 1/1000` -/
+example : ((so3LogExp (1 / 1000) ⟨3 / 2000, 0, 0⟩).sub ⟨3 / 2000, 0, 0⟩).norm ≤
+    2 * Real.sin ((⟨3 / 2000, 0, 0⟩ : Vec3 ℝ).norm / 2) ^ 5 / (5 * |Real.cos ((⟨3 / 2000, 0, 0⟩ : Vec3 ℝ).norm / 2)| ^ 5) := by
+  have hn : (⟨3 / 2000, 0, 0⟩ : Vec3 ℝ).norm = 3 / 2000 := Vec3.norm_axis _ (by norm_num)
+  refine so3_log_exp_gap _ _ (by norm_num) (by rw [hn]; norm_num) (by rw [hn]; linarith [Real.pi_gt_three]) ?_
+  rw [hn]
+  have := Real.sin_le (show (0 : ℝ) ≤ 3 / 2000 / 2 by norm_num)
+  intro h; linarith
+/-- regime 3 is inhabited by non-trivial unit quaternions: `q = (1/2000, 0, 0, √(1 − 1/2000²))`, `eps = 1/1000` -/
+example : ∃ q : Quat ℝ, q.normSq = 1 ∧ ¬ (1 / 1000 : ℝ) < q.vec.norm ∧ 0 < q.vec.norm := by
+  refine ⟨⟨1 / 2000, 0, 0, Real.sqrt (1 - (1 / 2000) ^ 2)⟩, ?_, ?_, ?_⟩
+  · simp only [Quat.normSq]
+    rw [Real.mul_self_sqrt (by norm_num)]; norm_num
+  · show ¬ (1 / 1000 : ℝ) < (⟨1 / 2000, 0, 0⟩ : Vec3 ℝ).norm
+    rw [Vec3.norm_axis _ (by norm_num)]; norm_num
+  · show (0 : ℝ) < (⟨1 / 2000, 0, 0⟩ : Vec3 ℝ).norm
+    rw [Vec3.norm_axis _ (by norm_num)]; norm_num
 /-- near `π`: `x = (π,0,0)` has `cos(θ/2) = 0 ≤ eps < sin(θ/2) = 1` -/
 example : so3LogExp (1 / 1000) ⟨Real.pi, 0, 0⟩ = (⟨Real.pi, 0, 0⟩ : Vec3 ℝ).smul (Real.pi / (⟨Real.pi, 0, 0⟩ : Vec3 ℝ).norm) := by
   have hn : (⟨Real.pi, 0, 0⟩ : Vec3 ℝ).norm = Real.pi := Vec3.norm_axis _ (le_of_lt Real.pi_pos)
@@ -416,7 +690,7 @@ example : SE3ExpLog (1 / 1000) ⟨⟨1, 2, 3⟩, qU⟩ = ⟨⟨1, 2, 3⟩, qU⟩
   SE3_exp_log_pos _ _ qU_unit (by norm_num) (by norm_num) qU_v (by simp only [qU]; norm_num)
 example : se3LogExp (1 / 1000) ⟨⟨1, 2, 3⟩, x1⟩ = ⟨⟨1, 2, 3⟩, x1⟩ := SE3_log_exp_band _ _ (by norm_num) x1_lo x1_hi
 example : SE3LogInv (1 / 1000) ⟨⟨1, 2, 3⟩, qL⟩ = se3.neg (SE3Log (1 / 1000) ⟨⟨1, 2, 3⟩, qL⟩) :=
-  SE3_log_inv _ _ qL_unit (by norm_num) (by norm_num) qL_v qL_w
+  SE3_log_inv_partial _ _ qL_unit (by norm_num) (by norm_num) qL_v qL_w
 example : SE3LogNeg (1 / 1000) ⟨⟨1, 2, 3⟩, qL⟩ = SE3Log (1 / 1000) ⟨⟨1, 2, 3⟩, qL⟩ :=
   SE3_log_neg _ _ (Or.inl (by simp only [qL]; norm_num))
 example : RxSO3ExpLog (1 / 1000) ⟨qU, 2⟩ = ⟨Quat.scale (|qU.w| / qU.w) qU, 2⟩ :=
@@ -433,6 +707,18 @@ example : Sim3ExpLog (1 / 1000) ⟨⟨1, 2, 3⟩, qL, 2⟩ = ⟨⟨1, 2, 3⟩, Q
   Sim3_exp_log _ _ qL_unit (by norm_num) (by norm_num) (by norm_num) qL_v qL_w
 example : sim3LogExp (1 / 1000) ⟨⟨1, 2, 3⟩, x1, -3⟩ = ⟨⟨1, 2, 3⟩, x1, -3⟩ :=
   Sim3_log_exp_band _ _ (by norm_num) x1_lo x1_hi
+example : Sim3LogInv (1 / 1000) ⟨⟨1, 2, 3⟩, qL, Real.exp 1⟩ = sim3.neg (Sim3Log (1 / 1000) ⟨⟨1, 2, 3⟩, qL, Real.exp 1⟩) :=
+  Sim3_log_inv_partial _ _ qL_unit (Real.exp_pos 1) (by norm_num) (by norm_num) qL_v qL_w
+    (by show (1 / 1000 : ℝ) < |Real.log (Real.exp 1)|; rw [Real.log_exp]; norm_num)
+example : Sim3LogInv (1 / 1000) ⟨⟨1, 2, 3⟩, qL, 1⟩ = sim3.neg (Sim3Log (1 / 1000) ⟨⟨1, 2, 3⟩, qL, 1⟩) :=
+  Sim3_log_inv_unit_scale _ _ qL_unit rfl (by norm_num) (by norm_num) qL_v qL_w
+example : ((SO3Log (1 / 1000) ⟨1 / 2000, 0, 0, 1⟩).sub ((⟨1 / 2000, 0, 0⟩ : Vec3 ℝ).smul
+    (2 * Real.arctan ((⟨1 / 2000, 0, 0⟩ : Vec3 ℝ).norm / 1) / (⟨1 / 2000, 0, 0⟩ : Vec3 ℝ).norm))).norm
+    ≤ 2 * (⟨1 / 2000, 0, 0⟩ : Vec3 ℝ).norm ^ 5 / (5 * |(1 : ℝ)| ^ 5) :=
+  SO3_log_series (1 / 1000) ⟨1 / 2000, 0, 0, 1⟩
+    (by show ¬ (1 / 1000 : ℝ) < (⟨1 / 2000, 0, 0⟩ : Vec3 ℝ).norm; rw [Vec3.norm_axis _ (by norm_num)]; norm_num)
+    (by show (0 : ℝ) < (⟨1 / 2000, 0, 0⟩ : Vec3 ℝ).norm; rw [Vec3.norm_axis _ (by norm_num)]; norm_num)
+    (by show (1 : ℝ) ≠ 0; norm_num)
 example : Sim3LogNeg (1 / 1000) ⟨⟨1, 2, 3⟩, qL, 2⟩ = Sim3Log (1 / 1000) ⟨⟨1, 2, 3⟩, qL, 2⟩ :=
   Sim3_log_neg _ _ (Or.inl (by simp only [qL]; norm_num))
 
